@@ -259,6 +259,25 @@ def uniform_body(famname, n, nverts):
     return body
 
 
+def all_n_ob(famname, lo, hi, nverts):
+    """Finite domain n in [lo, hi): z3 enumerates every n, the family runs natively (float64) and the same claims as in
+    the exact obligations are evaluated with a 1e-9 tolerance.  Vertex counts, unit measure, centring, equal edges and
+    the +x start are decided for every admissible n of the documented range, not only the n with closed-form trig."""
+    def fn(n):
+        H = common.Cx(rtol=1e-9)
+        (ngon_body(n) if famname == "RegularNGonFamily" else uniform_body(famname, n, nverts(n)))(H, {})
+        bad = [(k, d) for k, (ok, d) in H.results.items() if not ok]
+        if not H.results:
+            return False, "no claim evaluated"
+        return (not bad), ("n=%d: %s %s" % (n, bad[0][0], bad[0][1]) if bad else "")
+
+    name = "C17/all_n.%s" % famname
+    return (name, lambda: run_z3_enum(name, lo, hi, fn, describe=lambda n: "n=%d" % n,
+                                      bounds="%s for every n in %d..%d through the real code on float64 (tolerance 1e-9): vertex count, unit area / volume, centring, equal edge lengths%s"
+                                             % (famname, lo, hi - 1, ", first vertex on +x, vertices on a circle" if famname == "RegularNGonFamily" else ""),
+                                      functions=["coxeter.families.common._make_ngon", "coxeter.families.%s.get_shape / make_vertices" % famname]))
+
+
 def obligations(tier, seed):
     from symx.loader import functions_encoded
     import coxeter.families as Fm
@@ -294,6 +313,12 @@ def obligations(tier, seed):
         nm = "C17/RegularNGonFamily.n%d" % n
         obs.append((nm, (lambda nm=nm, n=n: run_e2(nm, ["dummy"], ngon_body(n), first_sample=dict(dummy=F(1)), functions=fns, max_paths=2,
                                                    stubs=["qhull 2-D / kabsch contract stubs"], bounds="n = %d, exact algebraic coordinates" % n))))
+    hi = 201
+    obs.append(all_n_ob("RegularNGonFamily", 3, hi, lambda n: n))
+    obs.append(all_n_ob("UniformPrismFamily", 3, hi, lambda n: 2 * n))
+    obs.append(all_n_ob("UniformAntiprismFamily", 3, hi, lambda n: 2 * n))
+    obs.append(all_n_ob("UniformPyramidFamily", 3, 6, lambda n: n + 1))
+    obs.append(all_n_ob("UniformDipyramidFamily", 3, 6, lambda n: n + 2))
     uni = [("UniformPrismFamily", n, 2 * n) for n in ((3, 4, 5, 6) if tier == "quick" else (3, 4, 5, 6, 8, 10))] + \
           [("UniformAntiprismFamily", n, 2 * n) for n in ((3, 4) if tier == "quick" else (3, 4, 5, 6))] + \
           [("UniformPyramidFamily", n, n + 1) for n in (3, 4, 5)] + [("UniformDipyramidFamily", n, n + 2) for n in (3, 4, 5)]
